@@ -39,6 +39,10 @@ pub struct Knobs {
 }
 
 pub fn gen_knobs(rng: &mut Rng, extreme: bool) -> Knobs {
+    gen_knobs_with(rng, extreme, false)
+}
+
+pub fn gen_knobs_with(rng: &mut Rng, extreme: bool, allow_custom: bool) -> Knobs {
     let grid = rng.chance(0.6);
     // Easing pool: swarm - sometimes only linear, sometimes a few, sometimes all.
     let mut pool: Vec<u8> = Vec::new();
@@ -59,6 +63,13 @@ pub fn gen_knobs(rng: &mut Rng, extreme: bool) -> Knobs {
                 pool.push(e);
             }
         }
+    }
+    // User-defined easings (Easing::Custom) join the pool in some runs. They are kept out of
+    // the C04 domain by the caller (C04 is stated for built-in easings: a custom easing with
+    // calc(0) != 0 makes a blended timeline differ from the entry values at its very first instant).
+    if allow_custom && rng.chance(0.25) {
+        pool.push(CUSTOM_STEPS);
+        pool.push(CUSTOM_BEZIER);
     }
     let narrow_u8 = pool.iter().any(|e| is_back(*e));
     Knobs {
